@@ -62,20 +62,72 @@ def ret_ok_none(body, sp):
     return ok_payload_variant(body, sp) == 'None'
 
 
+_FLIP = {'lt': 'gt', 'gt': 'lt', 'eq': 'eq'}
+
+
+def _hasp(og, pats):
+    return any(glob_match(p, o) or (p[-1] != '*' and glob_match(p + '.*', o)) for p in ([pats] if isinstance(pats, str) else pats) for o in og)
+
+
+def between(pa, pb):
+    """Guard predicate for a relation between quantity A (origins matching any of `pa`) and quantity B (`pb`), whichever way round
+    the comparison is written: returns True for (A ? B), 'swap' for (B ? A) - guard_gate then flips the relation."""
+    def pred(g):
+        a_is_a, a_is_b = _hasp(g.a_orig, pa), _hasp(g.a_orig, pb)
+        b_is_a, b_is_b = _hasp(g.b_orig, pa), _hasp(g.b_orig, pb)
+        if a_is_a and b_is_b and not (a_is_b and b_is_a):
+            return True
+        if a_is_b and b_is_a and not (a_is_a and b_is_b):
+            return 'swap'
+        if a_is_a and b_is_b and not a_is_b:
+            return True
+        if b_is_a and a_is_b and not b_is_b:
+            return 'swap'
+        return False
+    return pred
+
+
+def _log_pats(*groups):
+    import core
+    if core.PATTERN_LOG is None:
+        return
+    for g in groups:
+        if g is None:
+            continue
+        if isinstance(g, str):
+            core.PATTERN_LOG.add(g)
+        else:
+            for x in g:
+                if isinstance(x, str):
+                    core.PATTERN_LOG.add(x)
+                elif isinstance(x, (list, tuple)):
+                    _log_pats(x)
+
+
 class Ctx:
     def __init__(self, ws, report, tier):
         self.ws = ws
         self.report = report
         self.tier = tier
         self.mpt = MPT(ws, max_depth=8 if tier == 'quick' else 16)
+        # virtual inlining of same-crate helpers (rules/inline.py): on by default for anchors; `keep` = the
+        # module's named sinks (never spliced, so that their call sites stay visible)
+        self.inline = True
+        self.keep = ()
 
     # ---- anchors
+    def view(self, f):
+        if f is None or not self.inline:
+            return f
+        from inline import inlined
+        return inlined(f, self.ws, tuple(self.keep))
+
     def fn(self, pat):
-        return self.ws.find(pat)
+        return self.view(self.ws.find(pat))
 
     def try_fn(self, clause, pat):
         try:
-            return self.ws.find(pat)
+            return self.view(self.ws.find(pat))
         except AnchorMissing as e:
             self.report.missing(clause, e)
             return None
@@ -95,6 +147,7 @@ class Ctx:
 
     # ---- R1
     def r1(self, clause, entry_pat, sink, success=None, ret_filter=None, label=None):
+        _log_pats(getattr(sink, 'pats', None), getattr(sink, 'patterns', None))
         f = self.try_fn(clause, entry_pat)
         if f is None:
             return None
@@ -127,6 +180,11 @@ class Ctx:
         inst = '%s: %s' % (fn_short(f.name), desc)
         k = key or ('%s:%s' % (fn_short(f.name), desc))
         if not gs:
+            # the guard may sit in a closure applied to every item (`xs.iter().try_for_each(|x| check(x))`, `.all(..)`)
+            r = self._guard_in_item_closure(clause, lf, pred, required, through_calls, allow_shift, inst, k, success, ret_filter)
+            if r is not None:
+                return r
+        if not gs:
             self.report.violation(clause, 'R6', inst, k, 'no comparison guard matching the rule instance '
                                   'exists in %s' % lf.name, f.loc())
             return None
@@ -143,6 +201,8 @@ class Ctx:
         used = []
         for g in gs:
             rel_t = CMP_REL[g.op]
+            if pred(g) == 'swap':        # the guard compares (b, a): state its relation on (a, b)
+                rel_t = {_FLIP[r] for r in rel_t}
             rel_f = ALL3 - rel_t
             if rel_t <= required:
                 removed |= g.true_edges
@@ -174,11 +234,62 @@ class Ctx:
             ['%s@L%d' % (g.op, g.line) for g in gs], sorted(required)), '%s:%d' % (lf.file, gs[0].line))
         return True
 
+    def _guard_in_item_closure(self, clause, lf, pred, required, through_calls, allow_shift, inst, k, success, ret_filter):
+        from engine import closure_args
+        for g in lf.family():
+            if g is lf or g.kind != 'closure' or g.cor or g.parent is not lf:
+                continue
+            cb = g.body
+            gs = [x for x in find_guards(cb, through_calls) if pred(x)]
+            gs = [x for x in gs if allow_shift or not (operand_shifted(cb, x.a) or operand_shifted(cb, x.b))]
+            if not gs:
+                continue
+            removed = set()
+            for x in gs:
+                rel_t = CMP_REL[x.op]
+                if pred(x) == 'swap':
+                    rel_t = {_FLIP[r] for r in rel_t}
+                if rel_t <= required:
+                    removed |= x.true_edges
+                if (ALL3 - rel_t) <= required:
+                    removed |= x.false_edges
+            csucc = {'result': 'ok', 'option': 'some', 'bool': 'true'}.get(ty_class(g.ret), 'any')
+            if success_reachable(cb, removed, csucc):
+                self.report.violation(clause, 'R6', inst, k, 'the per-item closure %s can succeed although the guard only establishes part of the required relation %s'
+                                      % (fn_short(g.name), sorted(required)), '%s:%d' % (lf.file, gs[0].line))
+                return False
+            # the enclosing function succeeds only if the element-wise call did
+            body = lf.body
+            edges = set()
+            sites = 0
+            for c in body.calls():
+                if g.name in closure_args(body, c) and any(n.endswith(('::try_for_each', '::all')) for n in c.names()):
+                    sites += 1
+                    tr = track_result(body, c.dest[0], +1)
+                    edges |= tr.success_edges
+                    if tr.returned:
+                        # returned as is (tail expression, possibly through result adapters): its success IS the function's
+                        edges.add((c.bb, c.target))
+                        for c2 in body.calls():
+                            if c2.dest[0] in body.ret_carriers() and not c2.dest[1] and c2.target is not None:
+                                edges.add((c2.bb, c2.target))
+            if not sites:
+                continue
+            if success_reachable(body, edges, success, ret_filter=ret_filter):
+                self.report.violation(clause, 'R6', inst, k, 'the result of the element-wise check (closure %s) does not gate success' % fn_short(g.name),
+                                      '%s:%d' % (lf.file, gs[0].line))
+                return False
+            self.report.ok(clause, 'R6', inst, 'guards %s in the per-item closure; the element-wise call gates success' % ['%s@L%d' % (x.op, x.line) for x in gs],
+                           '%s:%d' % (lf.file, gs[0].line))
+            return True
+        return None
+
     # ---- R5
     def arg_origin(self, clause, fn_or_pat, callee_pats, argi, require=(), forbid=(), desc='', key=None,
                    through_calls=True, min_sites=1, all_sites=True):
         """Every call to `callee` in fn: argument `argi` has all `require` origins (globs) and none of
         the `forbid` origins."""
+        _log_pats(callee_pats, require, forbid)
         f = fn_or_pat if not isinstance(fn_or_pat, str) else self.try_fn(clause, fn_or_pat)
         if f is None:
             return None
@@ -194,7 +305,9 @@ class Ctx:
                     continue
                 nsites += 1
                 og = fn_origins(g, c.args[argi], through_calls)
-                miss = [r for r in require if not any(glob_match(r, o) for o in og)]
+                # a required origin is also satisfied by a field path under it (a getter spliced by the inliner turns
+                # `param:x` into `param:x.field`)
+                miss = [r for r in require if not any(glob_match(r, o) or (not r.endswith('*') and glob_match(r + '.*', o)) for o in og)]
                 bad = [o for o in og if any(glob_match(x, o) for x in forbid)]
                 if miss or bad:
                     ok_all = False
@@ -540,9 +653,11 @@ class Ctx:
 
     # ---- R2 ordering helpers
     def call_sites(self, body, pats):
+        _log_pats(pats)
         return [c for c in body.calls() if any(match_any(pats, n) for n in c.names())]
 
     def success_edges_of(self, lf, pats, want=+1):
+        _log_pats(pats)
         """(sites, success edges) of the calls matching pats in lf's body: edges on which the call succeeded."""
         body = lf.body
         sites = self.call_sites(body, pats)
@@ -556,6 +671,7 @@ class Ctx:
         return sites, edges
 
     def order(self, clause, fn_or_pat, first, then, desc=None, key=None, first_want=+1):
+        _log_pats(first, then)
         """R2: every path to a call of `then` has passed a successful call of `first`."""
         f = fn_or_pat if not isinstance(fn_or_pat, str) else self.try_fn(clause, fn_or_pat)
         if f is None:
